@@ -76,6 +76,7 @@ def _seq(items, closed, raise_at=None):
 
 
 PROGRAMS = {
+    "send-plain": [("send", lambda: gg.Off(A.GearShort(6)))],
     "send0": [("send", lambda: gg.QueryActualLevel(A.GearShort(1)))],
     "send6": [("send", lambda: led.QueryFeatures(A.GearShort(2)))],
     "seq-plain": [("seq", lambda: [gg.DAPC(A.GearShort(3), 9), SQ.sleep(0.01), gg.QueryStatus(A.GearShort(3))])],
@@ -242,6 +243,10 @@ def h_schedule(ctx, driver, names, fault, sym_calls=3):
     elif fault == "cancel":
         cancel_who = "A"
         cancel_after = ctx.fresh_choice("cancel_after", 5)
+    elif fault == "cancel-waiter":
+        # the second caller is cancelled, typically while it is still queueing for the lock
+        cancel_who = "B"
+        cancel_after = ctx.fresh_choice("cancel_after", 4)
     elif fault == "seq-raises":
         raise_at = ctx.fresh_choice("raise_at", 3)
 
@@ -346,7 +351,12 @@ def _stage2(ctx, log, progs, tag):
 def cases(tier):
     cs = []
     pairs = [("send0", "seq-dt"), ("send6", "seq-plain"), ("seq-dt", "seq-twice"), ("send6", "send0"),
-             ("seq-plain", "seq-dt")]
+             ("seq-plain", "seq-dt"), ("seq-dt", "send-plain"), ("send6", "send-plain")]
+    # three callers: the one in the middle is cancelled while it waits for the lock
+    for drv in ("hid", "luba", "sci"):
+        for names in (("seq-dt", "seq-plain", "send0"), ("seq-plain", "send6", "send-plain")):
+            cs.append(Case("%s-%s-cancel-waiter" % (drv, "+".join(names)), h_schedule,
+                           {"driver": drv, "names": names, "fault": "cancel-waiter", "sym_calls": 2}))
     for drv in ("hid", "luba", "sci"):
         for names in pairs:
             for fault in ("none", "gateway", "cancel", "seq-raises"):
